@@ -163,9 +163,14 @@ where
 }
 
 pub fn run_leg(ctx: &Ctx, root: &std::path::Path) {
+    let n_ids: u64 = if ctx.quick() { 66_000 } else { 132_000 };
+    run_leg_sized(ctx, root, "wide-ids", n_ids)
+}
+
+/// The same leg under another name and size (C05 runs it over the first byte boundaries: what an
+/// agent hands to the store comes back at restart only if the store keeps items apart).
+pub fn run_leg_sized(ctx: &Ctx, root: &std::path::Path, name: &str, n_ids: u64) {
     let t0 = Instant::now();
-    let quick = ctx.quick();
-    let n_ids: u64 = if quick { 66_000 } else { 132_000 };
     let mut found: Vec<Found> = vec![];
     let mut evals = 0;
     let mut calls = 0;
@@ -191,10 +196,10 @@ pub fn run_leg(ctx: &Ctx, root: &std::path::Path) {
         Err(e) => vcommon::machinery_failure(&format!("wide-ids (mem): store call failed outside the operations under test: {:?}", e)),
     }
     for f in &found {
-        ctx.violation("wide-ids", &f.sig, f.detail.clone());
+        ctx.violation(name, &f.sig, f.detail.clone());
     }
     ctx.add_leg(Leg {
-        name: "wide-ids".into(),
+        name: name.into(),
         engine: "E4-enum".into(),
         states: evals,
         transitions: calls,
